@@ -134,6 +134,10 @@ type sim struct {
 	cur   *ParamSet
 	pend  map[int][]int // validator id -> undelivered node ids
 	chgAt uint32        // trunk height whose block sets new parameters (0 = none)
+	// chgCertOnly: the change keeps validators, weights, prevote and precommit thresholds and
+	// only moves the certificate threshold; finality is reasoned about exactly as without it, so
+	// it may sit above fork points (every branch reaching chgAt installs it)
+	chgCertOnly bool
 	chg   *ParamSet
 	limit int
 }
@@ -308,6 +312,16 @@ func (s *sim) setup() {
 	// validator change on the trunk (judged: below every fork) - re-weight / leave / join
 	if r.Intn(4) == 0 || fam == "unjudged:validator-change-above-fork" {
 		s.planChange()
+	} else if r.Intn(3) == 0 {
+		n := &ParamSet{Vals: append([]Val(nil), ps.Vals...), Pre: ps.Pre, Cert: ps.Cert}
+		t := n.total()
+		for try := 0; try < 8 && n.Cert == ps.Cert; try++ {
+			n.Cert = t/3 + 1 + uint64(r.Int63n(int64(t-(t/3+1))+1))
+		}
+		if n.Cert != ps.Cert {
+			s.chg, s.chgCertOnly = n, true
+			s.chgAt = res.Genesis + 1 + uint32(r.Intn(14))
+		}
 	}
 }
 
@@ -453,6 +467,9 @@ func (s *sim) addBlock(parent int, gen int, mhg uint32, who string) int {
 			n.ref.SetGenerators(s.chg.gens())
 		}
 		s.count("parameter_changes_applied", 1)
+		if s.chgCertOnly && !n.Trunk {
+			s.count("certificate_threshold_changes_applied_above_a_fork", 1)
+		}
 	}
 	n.st.Commit()
 	pv, pc, _, err := s.mod.API().GetBFTHeights(n.st.Store())
@@ -1177,7 +1194,7 @@ func (s *sim) finish() {
 		}
 	}
 	// a parameter change above a fork point is outside the judged families
-	if s.chg != nil {
+	if s.chg != nil && !s.chgCertOnly {
 		for _, n := range res.Nodes {
 			if n.Set != nil && n.ID != 0 && !n.Trunk && res.Judged {
 				res.Judged = false
